@@ -464,6 +464,12 @@ EDGE_LINES = [
     'DATA \\x20 0', 'DATA a\\x0A 0', 'TIMESTAMP 2020-01-01T00:00:00Z x',
     'DATA \\U0010FFFF 0', 'DATA \\ud83d\\ude00 0', 'DIST .. 0',
     'DIST . 0', 'DATA . 0', 'DATA a/../b 0', 'DATA ./a 0', 'DATA a/. 0',
+    # 20-character near-misses of the timestamp format
+    'TIMESTAMP 2017-10-22T18+06:41Z', 'TIMESTAMP 2017-10-22T18:06.41Z',
+    'TIMESTAMP 2017-10-22T180641.5Z', 'TIMESTAMP 2017-10-22 18:06:41Z',
+    'TIMESTAMP 2017-10-22T18:06:41z', 'TIMESTAMP 2017-W43-7T18:06:4Z',
+    'TIMESTAMP 20171022T18:06:41.0Z', 'TIMESTAMP 2017-10-22T18:06:41Z',
+    'TIMESTAMP 2017-1-2T3:4:5Z', 'TIMESTAMP 2017-10-22T24:00:00Z',
 ]
 
 
